@@ -358,6 +358,14 @@ func (d *Driver) marshalOne(ti TypeInfo, am AM, lbl string) *GEv {
 		d.emit(e)
 		return e
 	}
+	if strings.HasSuffix(lbl, "+rtsized") {
+		// the owning runtime has sized / marshaled the (unchanged) message before the generated code does: whatever it left in the
+		// message's size cache follows the runtime's convention, and the generated code has to read it that way
+		func() {
+			defer func() { _ = recover() }()
+			_, _ = runtimeOf(ti.Flavour).marshal(msg)
+		}()
+	}
 	var out []byte
 	var err error
 	guard(&e.St, &e.Note, func() {
@@ -484,6 +492,9 @@ func (d *Driver) FamMarshal(nRandom int) {
 		t := d.full(ti)
 		for i, am := range d.S.SingleFieldValues(t, d.R) {
 			d.marshalOne(ti, am, fmt.Sprintf("single-%d", i))
+			if i%3 == 0 && longestList(am) <= 40 {
+				d.marshalOne(ti, am, fmt.Sprintf("single-%d+rtsized", i))
+			}
 			// the same with all required fields filled in (so that the value itself is exercised)
 			if withReq := d.S.WithRequired(t, cloneAM(am), d.R); !EqualAM(withReq, am) {
 				d.marshalOne(ti, withReq, fmt.Sprintf("single-%d+req", i))
@@ -646,6 +657,12 @@ func (d *Driver) FamMutate(perType int, dense bool) {
 		d.W.NextGroup()
 		t := d.full(ti)
 		vals := d.S.SingleFieldValues(t, d.R)
+		// every boundary value as it is (no mutation): "whenever both accept, the messages are equal" includes the inputs nobody touched
+		for i, v := range vals {
+			if longestList(v) <= 40 {
+				d.unmarshalOne(ti, d.S.Encode(t, d.S.WithRequired(t, cloneAM(v), d.R), EncOpts{}), false, fmt.Sprintf("unmutated-single-%d", i), false)
+			}
+		}
 		for n := 0; n < perType; n++ {
 			var am AM
 			if n%2 == 0 {
